@@ -129,11 +129,25 @@ def check_storage_ctor(rep, idx, c, S, cname):
     if not (S[0] == 'attr' and S[1] == ('name', 'self')):
         rep.unk("C12.4", cls.site, f"{cname}: storage constructor", f"storage role {ir.show(S)} is not an attribute of self")
         return
-    st = find_init_assign(cls, S[2])
-    init = cls.method("__init__")
+    st = find_init_assign(cls, S[2], idx)
+    owner = cls
+    if st is not None:
+        for k in [cls] + idx.bases_of(cls):
+            i_ = k.method("__init__")
+            if i_ is not None and any(n is st for n in ast.walk(i_.node)):
+                owner = k
+    init = owner.method("__init__")
     if st is None or init is None:
-        rep.bad("C12.4", cls.site, f"{cname}: storage constructor", f"self.{S[2]} is not created in __init__")
+        rep.form(False, "C12.4", cls.site, f"{cname}: storage constructor", f"self.{S[2]} is not created in an __init__ of the class or its bases")
         return
+    # the class's own __init__ must hand its `init` on to the base that creates the storage
+    if owner is not cls:
+        own = cls.method("__init__")
+        fwd = own is None or any(isinstance(n, ast.Call) and ast.unparse(n.func) == "super().__init__" and
+                                 any(k.arg == "init" and isinstance(k.value, ast.Name) and k.value.id == "init" for k in n.keywords)
+                                 for n in ast.walk(own.node))
+        rep.form(fwd, "C12.4", cls.site, f"{cname}: init is forwarded to the base class that creates the storage",
+                 "super().__init__(..., init=init) not found")
     v = ir.norm(ir.from_ast(st.value, {}))
     ok = v[0] == 'call' and v[1] == ('name', 'Signal')
     shape_ok = ok and v[2] and v[2][0] == ('name', 'shape') or ok and dict(v[3]).get('shape') == ('name', 'shape')
